@@ -88,6 +88,7 @@ type workload struct {
 	tr       *ce.Tree
 	steps    []step
 	cache    uint64
+	recCache uint64 // utxo cache size of the restarts after a crash
 	prune    bool
 	fileSize uint32
 }
@@ -97,7 +98,7 @@ func (w *workload) String() string {
 	for _, s := range w.steps {
 		sb.WriteString(s.String() + " ")
 	}
-	return fmt.Sprintf("cache=%d prune=%v fileSize=%d steps: %s\ntree: %s", w.cache, w.prune, w.fileSize, sb.String(), w.tr.Describe())
+	return fmt.Sprintf("cache=%d cacheAfterRestart=%d prune=%v fileSize=%d steps: %s\ntree: %s", w.cache, w.recCache, w.prune, w.fileSize, sb.String(), w.tr.Describe())
 }
 
 func (w *workload) envOpt(dir string, wrap func(database.DB) database.DB) ce.EnvOpt {
@@ -105,6 +106,15 @@ func (w *workload) envOpt(dir string, wrap func(database.DB) database.DB) ce.Env
 	if w.prune {
 		o.Prune = uint64(w.fileSize) * 2
 	}
+	return o
+}
+
+// recOpt is envOpt for the restarts after a crash: the node may come back with
+// another utxo cache size than it crashed with (a large cache lags far behind
+// the tip, a small one makes the replay flush block by block).
+func (w *workload) recOpt(dir string, wrap func(database.DB) database.DB) ce.EnvOpt {
+	o := w.envOpt(dir, wrap)
+	o.UtxoCacheMaxSize = w.recCache
 	return o
 }
 
@@ -134,6 +144,15 @@ func genWorkload(t *rapid.T) *workload {
 		MinBlocks: minB, MaxBlocks: maxB, MaxInvalid: maxInvalid, Txs: true, ForkProb: forkProb, Maturity: []uint16{1, 2, 3},
 	})
 	w.cache = rapid.SampledFrom([]uint64{0, 1 << 10, 100 << 20}).Draw(t, "utxoCache")
+	// the restarts use the same size, or the opposite extreme (a lagging large cache replayed
+	// block by block with a tiny one, and the reverse)
+	w.recCache = w.cache
+	if rapid.IntRange(0, 2).Draw(t, "otherCacheAfterRestart") > 0 {
+		w.recCache = rapid.SampledFrom([]uint64{0, 1 << 10, 100 << 20}).Draw(t, "utxoCacheAfterRestart")
+		if w.cache == 100<<20 && rapid.Bool().Draw(t, "tinyAfterBig") {
+			w.recCache = 1
+		}
+	}
 	var delivered []*ce.Node
 	for _, n := range w.tr.Nodes[1:] {
 		if !stored(n) {
@@ -343,7 +362,7 @@ func copyDir(src string) string {
 // commit (second-level crash) and returns commits=-1.
 func recoverAndCheck(t *rapid.T, w *workload, ref *reference, dir string, k, atStep int, kill bool, universe universeT, ctx string) (commits int) {
 	var cdb *countingDB
-	env, err := ce.NewEnv(w.tr.Params, w.envOpt(dir, func(db database.DB) database.DB {
+	env, err := ce.NewEnv(w.tr.Params, w.recOpt(dir, func(db database.DB) database.DB {
 		cdb = &countingDB{DB: db}
 		return cdb
 	}))
@@ -432,7 +451,7 @@ func checkRecovered(t *rapid.T, w *workload, ref *reference, env *ce.Env, k, atS
 }
 
 var recCrash = ev.New("C04", "crash-recovery",
-	"workloads of 3-30 block deliveries over generated trees (forks => reorganisations, one invalid block, re-created txids, variable work) with utxo flushes, ffldb metadata flushes, invalidate/reconsider, utxo cache in {0,1KiB,100MiB}, block files of 1-4 KiB, pruning on/off; "+
+	"workloads of 3-30 block deliveries over generated trees (forks => reorganisations, one invalid block, re-created txids, variable work) with utxo flushes, ffldb metadata flushes, invalidate/reconsider, utxo cache in {0,1KiB,100MiB} while running and an independently drawn size (also 1 byte) for the restarts after a crash, block files of 1-4 KiB, pruning on/off; "+
 		"for every durable commit boundary k of the workload (all of them: exhaustive per workload unless capped) the workload is re-executed, aborted at k, and the database closed as a prefix image (all commits <= k durable) and as a kill image (ffldb cache unflushed); "+
 		"recovery (database.Open + blockchain.New) runs under the same commit counter and is itself aborted at each of its commits (second level); "+
 		"oracle per image: opens; tip is ancestor-or-equal of a tip active no later than the interrupted operation (prefix image: exactly the best state of commit k); utxo set == fold(tip) incl. spend journals; blocks acknowledged before the last durable commit are known; "+
@@ -443,6 +462,12 @@ var recCrash = ev.New("C04", "crash-recovery",
 func TestCrashRecovery(t *testing.T) {
 	rapid.Check(t, func(t *rapid.T) {
 		w := genWorkload(t)
+		if w.recCache != w.cache {
+			recCrash.Count("restart-with-other-cache-size", 1)
+			if w.cache == 100<<20 && w.recCache <= 1<<10 {
+				recCrash.Count("restart-big-to-small-cache", 1)
+			}
+		}
 		ref := runReference(t, w)
 		hardExtra := false
 		w.extra = w.tr.Extend(ref.final, ce.BlockOpt{Hard: hardExtra})
@@ -574,7 +599,7 @@ func abortRecovery(t *rapid.T, w *workload, img string, j int, kill bool, ctx st
 			}
 		}()
 		var err error
-		env2, err = ce.NewEnv(w.tr.Params, w.envOpt(img, func(db database.DB) database.DB {
+		env2, err = ce.NewEnv(w.tr.Params, w.recOpt(img, func(db database.DB) database.DB {
 			raw = db
 			return &countingDB{DB: db, abortAt: j}
 		}))
